@@ -1,10 +1,13 @@
 from ._common import STD_TRUST
+from ._links import with_links
 
 PROP = dict(
     level='proof',
     regen=['crctable', 'integconsts', 'readerconsts'],
     theorems=['Fit.C16.C16_concat', 'Fit.C16.C16_lengths', 'Fit.C16.C16_agree', 'Fit.C16.C16_reader_error'],
     families=[dict(name='raw', spec=True, prop=True)],
+    # link theorem spec => raw decoder (additive: checklib/props/_links.py)
+    extra=with_links(None, ['Fit.Links.Link_fitformat_raw'], crosscheck=[('raw', 'linkraw')]),
     trusted_base=STD_TRUST + [
         "the model of (*RawDecoder).Decode (FitModel/Raw.lean: callback flags, per-sequence table lenMesgs, record lengths, BytesArray bound, callback failure, byte count n) is hand-written from decoder/raw.go and tied by family raw: real RawDecoder vs model on fixtures, encoder outputs under assorted options, hand-made record streams (0..255 fields, developer fields, size-0 fields, compressed-timestamp headers with bit 6 set, redefinitions), mutations and arbitrary bytes; contiguous and fragmenting / failing readers; failing callbacks",
         "FitFormat (lean/FitModel/FitFormat.lean) is the independent reading of the protocol's framing the lengths are stated against; on every stream it parses, the real RawDecoder's segmentation is compared with it (--spec)",
